@@ -1,6 +1,7 @@
 import CssVerif.Lemmas.EncLadder
 import CssVerif.Lemmas.EncEscape
 import CssVerif.Lemmas.EncSheet
+import CssVerif.Props.C07
 /-!
 # C08 — sheet/import encoding precedence; serialised bytes decodable and lossless
 
@@ -12,7 +13,8 @@ The codecs of the Python runtime, the fetcher and the sheet parser are parameter
 holds for all of them.
 -/
 namespace CssVerif.C08
-open CssVerif.Codec CssVerif.EncLadder
+open CssVerif.Codec hiding Name fixFinal
+open CssVerif.EncLadder
 
 /-! ## T8.1 the ladder of `_readUrl` -/
 
@@ -44,21 +46,20 @@ theorem readUrl_ladder (override http parent : Option Name) (c : Content) :
 
 /-- … and `_readUrl` returns exactly that choice, for EVERY fetcher result shape: no sheet unless the fetcher
 returned a pair with content; text content is handed on untouched; bytes are decoded with the chosen encoding (the
-`@charset` name rewritten to it), an undecodable content gives `text = None`, an unknown encoding name raises -/
+`@charset` name rewritten to it); content that does not decode, and — since the repair — an encoding name the
+runtime does not know, give `text = None`. `_readUrl` cannot raise (its model is a total function). -/
 theorem readUrl_result (w : World) (r : FetchRes) (override parent : Option Name) :
     readUrl w r override parent =
       match r with
       | .pair http (.text t) =>
-        .ok (some ⟨(choose override http parent (.text t)).encoding, (choose override http parent (.text t)).enctype, some t⟩)
+        some ⟨(choose override http parent (.text t)).encoding, (choose override http parent (.text t)).enctype, some t⟩
       | .pair http (.bytes b) =>
-        (match w.dec (choose override http parent (.bytes b)).encoding b with
-         | .ok t => .ok (some ⟨(choose override http parent (.bytes b)).encoding,
-                               (choose override http parent (.bytes b)).enctype,
-                               some (fixFinal t (choose override http parent (.bytes b)).encoding)⟩)
-         | .unicodeError => .ok (some ⟨(choose override http parent (.bytes b)).encoding,
-                                       (choose override http parent (.bytes b)).enctype, none⟩)
-         | .lookupError => .error .lookupError)
-      | _ => .ok none := by
+        some ⟨(choose override http parent (.bytes b)).encoding, (choose override http parent (.bytes b)).enctype,
+          (match w.dec (choose override http parent (.bytes b)).encoding b with
+           | .ok t => some (fixFinal t (choose override http parent (.bytes b)).encoding)
+           | .unicodeError => none
+           | .lookupError => none)⟩
+      | _ => none := by
   cases r with
   | none => rfl
   | badLen => rfl
@@ -67,8 +68,7 @@ theorem readUrl_result (w : World) (r : FetchRes) (override parent : Option Name
     cases c with
     | text t => rfl
     | bytes b =>
-      rw [readUrl_pair]
-      simp only [decodeContent]
+      simp only [readUrl, decodeContent]
       cases w.dec (choose override http parent (Content.bytes b)).encoding b <;> rfl
 
 /-- the `@charset` rewriter applied to the decoded bytes always answers (no silent default in `fixFinal`) -/
@@ -89,147 +89,190 @@ theorem enctype_meaning (override http parent : Option Name) (c : Content) :
   cases ho : truthy override <;> cases hh : truthy http <;> cases hp : truthy parent <;>
     rcases hd : contentDetect c with _ | ⟨e, _ | _⟩ <;> simp
 
-/-! "BOM/@charset in the content" as `_readUrl` sees it is the detector run WITHOUT `final`
-(`util.py:938,940`). Against CSS 2.1 §4.4 on complete data (the detector WITH `final`, C07) this differs on exactly
-one family of inputs, the UTF-16 LE BOM followed by fewer than two bytes — known finding C08-short-bom:
+/-! "BOM/@charset in the content". Since the repair of C08-short-bom `_readUrl` runs the detectors WITH `final`
+(`util.py:938-944`), so its notion of "explicit" IS the CSS 2.1 §4.4 answer of the detector on complete data (C07) —
+`explicit_is_final`, promoted from `explicit_is_final_partial` (which needed `4 ≤ b.length`) — and the CSS 2.1 rows
+proved for the detector in C07 carry over to the ladder for every continuation of the data. -/
+theorem explicit_is_final (b : List Nat) :
+    explicitOf (.bytes b) = (match detect b true with | some (e, true) => some (encName e) | _ => none) := rfl
 
-  FULL STATEMENT (not provable for the code as it is):
-    explicitOf (.bytes b) = (match detect b true with | some (e, true) => some (encName e) | _ => none)
+/-- each BOM, for every continuation — also the UTF-16 LE BOM followed by nothing or one byte (the former finding) -/
+theorem explicit_bom (t : List Nat) (c d : Nat) :
+    explicitOf (.bytes (0xEF :: 0xBB :: 0xBF :: t)) = some utf8sigN ∧
+    explicitOf (.bytes (0xFE :: 0xFF :: t)) = some utf16N ∧
+    explicitOf (.bytes (0xFF :: 0xFE :: 0 :: 0 :: t)) = some utf32N ∧
+    explicitOf (.bytes (0 :: 0 :: 0xFE :: 0xFF :: t)) = some utf32N ∧
+    (¬ (c = 0 ∧ d = 0) → explicitOf (.bytes (0xFF :: 0xFE :: c :: d :: t)) = some utf16N) ∧
+    explicitOf (.bytes [0xFF, 0xFE]) = some utf16N ∧ explicitOf (.bytes [0xFF, 0xFE, c]) = some utf16N := by
+  simp only [explicitOf, contentDetect]
+  refine ⟨?_, ?_, ?_, ?_, ?_, ?_, ?_⟩
+  · rw [C07.bom_utf8 t true]; rfl
+  · rw [C07.bom_utf16_be t true]; rfl
+  · rw [C07.bom_utf32_le t true]; rfl
+  · rw [C07.bom_utf32_be t true]; rfl
+  · intro h; rw [C07.bom_utf16_le c d t true h]; rfl
+  · rw [C07.bom_utf16_le_short.1]; rfl
+  · rw [C07.bom_utf16_le_short.2 c]; rfl
 
-  proved: `explicit_is_final_partial` under the guard `4 ≤ b.length`; and the negation at the witness. -/
-theorem explicit_is_final_partial (b : List Nat) (h4 : 4 ≤ b.length) :
-    explicitOf (.bytes b) = (match detect b true with | some (e, true) => some (encName e) | _ => none) := by
-  have hcore : core b false = core b true := by
-    have := core_ge4 b [] false true h4
-    simpa using this
-  simp only [explicitOf, contentDetect, detect, hcore]
-  cases core b true with
-  | dflt => simp
-  | ans e x => rfl
-  | scan => cases charsetName b <;> simp
+/-- `@charset "name"` at the very start names the encoding explicitly — in bytes and in text, for every name without
+a quote and every continuation -/
+theorem explicit_charset (name t : List Nat) (hn : ∀ c ∈ name, c ≠ 0x22) :
+    explicitOf (.bytes (prefix10 ++ name ++ 0x22 :: t)) = some name ∧
+    explicitOf (.text (prefix10 ++ name ++ 0x22 :: t)) = some name := by
+  constructor
+  · simp only [explicitOf, contentDetect]
+    rw [C07.charset_rule name t true hn]; rfl
+  · have hq : ∀ (n : List Nat), (∀ c ∈ n, c ≠ 0x22) → ∀ t, findQuote (n ++ 0x22 :: t) = some n.length := by
+      intro n
+      induction n with
+      | nil => intro _ t; simp [findQuote]
+      | cons c r ih =>
+        intro h t
+        have hc : c ≠ 0x22 := h c (by simp)
+        have := ih (fun x hx => h x (by simp [hx])) t
+        simp [findQuote, hc, this]
+    have hp : prefix10.isPrefixOf (prefix10 ++ name ++ 0x22 :: t) = true := by
+      rw [List.isPrefixOf_iff_prefix, List.append_assoc]; exact List.prefix_append _ _
+    have d10 : (prefix10 ++ name ++ 0x22 :: t).drop 10 = name ++ 0x22 :: t := by simp [prefix10]
+    simp only [explicitOf, contentDetect, detectUnicode, hp, if_true, d10, hq name hn t]
+    simp [encName]
 
-/-- … and that family is the ONLY place where the two differ: if `_readUrl`'s idea of "explicit" is not the
-CSS 2.1 answer for the complete data, the data is shorter than four bytes and starts with `FF FE` -/
-theorem explicit_differs_only_at_short_bom (b : List Nat)
-    (h : explicitOf (.bytes b) ≠ (match detect b true with | some (e, true) => some (encName e) | _ => none)) :
-    b.length < 4 ∧ b.take 2 = [0xFF, 0xFE] := by
-  by_cases h4 : 4 ≤ b.length
-  · exact absurd (explicit_is_final_partial b h4) h
-  · have hl : b.length < 4 := by omega
-    refine ⟨hl, ?_⟩
-    have e1 : explicitOf (.bytes b) = (exAns (detect b false)).map encName := by
-      simp only [explicitOf, contentDetect]
-      rcases hd : detect b false with _ | ⟨e, _ | _⟩ <;> simp [exAns]
-    have e2 : (match detect b true with | some (e, true) => some (encName e) | _ => none)
-        = (exAns (detect b true)).map encName := by
-      rcases hd : detect b true with _ | ⟨e, _ | _⟩ <;> simp [exAns]
-    rcases explicit_short b hl with heq | hbom
-    · rw [e1, e2, heq] at h; exact absurd rfl h
-    · exact hbom
+/-! ## T8.2 the hand-over to imported sheets
 
-/-- the witness: content `FF FE` (an empty UTF-16 sheet) is explicit by CSS 2.1, but `_readUrl` falls through to
-the parent's encoding / UTF-8 -/
-example : explicitOf (.bytes [0xFF, 0xFE]) = none ∧
-    (match detect [0xFF, 0xFE] true with | some (e, true) => some (encName e) | _ => none) = some utf16N ∧
-    choose none none none (.bytes [0xFF, 0xFE]) = ⟨utf8N, 5⟩ := by decide
+`parseText w fuel t eo en href` is what `parseString` (`eo` = its `encoding` argument, `en = None`) and `parseUrl`
+(`eo` / `en` from the ladder for the root sheet) have in common after decoding. -/
 
-/-! ## T8.2 the hand-over to imported sheets -/
+/-- T8.2 `override_propagates` (general form): when a sheet is parsed with an override `e`, then in an import tree
+of ANY depth every import that is loaded was read with exactly that encoding as an override (`enctype = 0`), and —
+the name being one `CSSCharsetRule` accepts — reports it as its `encoding`; so does the root sheet -/
+theorem override_propagates_text (w : World) (fuel : Nat) (t : Text) (e : Name) (en : Option Name)
+    (href : Option Url) (p : Parsed) (he : e ≠ []) (h : parseText w fuel t (some e) en href = .ok p) :
+    (∀ x ∈ p.out.recs, x.found = true → x.enctype = 0 ∧ x.used = e ∧ (validName w e = true → x.reported = lower e)) ∧
+    (validName w e = true → p.encoding = lower e) := by
+  have hte : truthy (some e) = true := (truthy_some_iff e).mpr he
+  unfold parseText at h
+  split at h
+  · cases h
+  · rename_i st hst
+    split at h
+    · cases h
+    · rename_i st' hfin
+      simp only [Except.ok.injEq] at h; subst h
+      have hq0 : (beginEO ⟨href, [], none, none, []⟩ (some e) en).override = some e := beginEO_override_eq _ _ _ hte
+      obtain ⟨hq, hall⟩ := parseItems_all w (loadChild w fuel 1) (OvRec w e) (fun s => s.override = some e)
+        (fun s rs h => h) (fun s u r hq hr => loadChild_override w e he fuel 1 s u r hq hr) _ _ _ _ hst hq0
+        (by intro x hx; simp at hx)
+      have hout := finishEO_out w st st' _ _ hfin
+      refine ⟨?_, ?_⟩
+      · intro x hx; simp only at hx; rw [hout] at hx; exact hall x hx
+      · intro hv
+        unfold finishEO at hfin
+        simp only [hte, if_true] at hfin
+        rw [hq] at hfin
+        cases hs : setEncodingRule w st.sheet.rules ((some e).getD []) with
+        | error x => rw [hs] at hfin; cases hfin
+        | ok rs =>
+          rw [hs] at hfin
+          simp only [Except.ok.injEq] at hfin; subst hfin
+          exact setEncodingRule_reported w _ _ _ hv hs
 
-/-- T8.2 `override_propagates`: when `parseString` is given an override, then in an import tree of ANY depth every
-import that is loaded was read with exactly that encoding as an override (`enctype = 0`), and — the name being one
-`CSSCharsetRule` accepts — reports it as its `encoding`; so does the root sheet -/
+/-- T8.2 `override_propagates` for `parseString(…, encoding=e)` -/
 theorem override_propagates (w : World) (fuel : Nat) (input : Content) (e : Name) (href : Option Url) (p : Parsed)
     (he : e ≠ []) (h : parseString w fuel input (some e) href = .ok p) :
     (∀ x ∈ p.out.recs, x.found = true → x.enctype = 0 ∧ x.used = e ∧ (validName w e = true → x.reported = lower e)) ∧
     (validName w e = true → p.encoding = lower e) := by
-  have hte : truthy (some e) = true := (truthy_some_iff e).mpr he
   unfold parseString at h
   split at h
   · cases h
-  · rename_i t _
+  · exact override_propagates_text w fuel _ e none href p he h
+
+/-- T8.2 (second half, general form) without an override every import, at any depth, is read by the ladder from ITS
+OWN HTTP charset, ITS OWN content and the `parentEncoding` handed down to it; its content is decoded accordingly -/
+theorem no_override_ladder_text (w : World) (fuel : Nat) (t : Text) (eo en : Option Name) (href : Option Url)
+    (p : Parsed) (hne : truthy eo = false) (h : parseText w fuel t eo en href = .ok p) :
+    ∀ x ∈ p.out.recs, x.found = true → ∃ http c, w.fetch x.url = .pair http c ∧
+      choose none http x.parentArg c = ⟨x.used, x.enctype⟩ ∧ decodeContent w c x.used = some x.text := by
+  unfold parseText at h
+  split at h
+  · cases h
+  · rename_i st hst
     split at h
     · cases h
-    · rename_i st hst
-      split at h
-      · cases h
-      · rename_i st' hfin
-        simp only [Except.ok.injEq] at h; subst h
-        have hq0 : (beginEO ⟨href, [], none, none, []⟩ (some e) none).override = some e := beginEO_override _ _ hte
-        obtain ⟨hq, hall⟩ := parseItems_all w (loadChild w fuel 1) (OvRec w e) (fun s => s.override = some e)
-          (fun s rs h => h) (fun s u r hq hr => loadChild_override w e he fuel 1 s u r hq hr) _ _ _ _ hst hq0
-          (by intro x hx; simp at hx)
-        have hout := finishEO_out w st st' _ _ hfin
-        refine ⟨?_, ?_⟩
-        · intro x hx; simp only at hx; rw [hout] at hx; exact hall x hx
-        · intro hv
-          unfold finishEO at hfin
-          simp only [hte, if_true] at hfin
-          rw [hq] at hfin
-          cases hs : setEncodingRule w st.sheet.rules ((some e).getD []) with
-          | error x => rw [hs] at hfin; cases hfin
-          | ok rs =>
-            rw [hs] at hfin
-            simp only [Except.ok.injEq] at hfin; subst hfin
-            exact setEncodingRule_reported w _ _ _ hv hs
+    · rename_i st' hfin
+      simp only [Except.ok.injEq] at h; subst h
+      have hq0 : (beginEO ⟨href, [], none, none, []⟩ eo en).override = none :=
+        beginEO_no_override _ _ _ rfl hne
+      obtain ⟨_, hall⟩ := parseItems_all w (loadChild w fuel 1) (LadderRec w) (fun s => s.override = none)
+        (fun s rs h => h) (fun s u r hq hr => loadChild_ladder w fuel 1 s u r hq hr) _ _ _ _ hst hq0
+        (by intro x hx; simp at hx)
+      have hout := finishEO_out w st st' _ _ hfin
+      intro x hx; simp only at hx; rw [hout] at hx; exact hall x hx
 
-/-- T8.2 (second half) without an override every import, at any depth, is read by the ladder from ITS OWN HTTP
-charset, ITS OWN content and the `parentEncoding` handed down to it; its content is decoded accordingly -/
+/-- … for `parseString` without (or with an empty) `encoding=` -/
 theorem no_override_ladder (w : World) (fuel : Nat) (input : Content) (enc : Option Name) (href : Option Url)
     (p : Parsed) (hne : truthy enc = false) (h : parseString w fuel input enc href = .ok p) :
     ∀ x ∈ p.out.recs, x.found = true → ∃ http c, w.fetch x.url = .pair http c ∧
-      choose none http x.parentArg c = ⟨x.used, x.enctype⟩ ∧ decodeContent w c x.used = .ok (some x.text) := by
+      choose none http x.parentArg c = ⟨x.used, x.enctype⟩ ∧ decodeContent w c x.used = some x.text := by
   unfold parseString at h
   split at h
   · cases h
-  · rename_i t _
+  · exact no_override_ladder_text w fuel _ enc none href p hne h
+
+/-- what the root hands down to its direct imports: the encoding found for it (`en`, when there is one), else its own
+`@charset` (if it has one): the referring sheet's encoding -/
+theorem root_hands_down_text (w : World) (fuel : Nat) (t : Text) (eo en : Option Name)
+    (href : Option Url) (p : Parsed) (h : parseText w fuel t eo en href = .ok p) :
+    ∀ x ∈ p.out.recs, 1 ≤ x.depth ∧
+      (x.depth = 1 → x.parentArg = if truthy en = true then en else p.ownCharset) := by
+  unfold parseText at h
+  split at h
+  · cases h
+  · rename_i st hst
     split at h
     · cases h
-    · rename_i st hst
-      split at h
-      · cases h
-      · rename_i st' hfin
-        simp only [Except.ok.injEq] at h; subst h
-        have hq0 : (beginEO ⟨href, [], none, none, []⟩ enc none).override = none :=
-          beginEO_no_override _ _ _ rfl hne
-        obtain ⟨_, hall⟩ := parseItems_all w (loadChild w fuel 1) (LadderRec w) (fun s => s.override = none)
-          (fun s rs h => h) (fun s u r hq hr => loadChild_ladder w fuel 1 s u r hq hr) _ _ _ _ hst hq0
-          (by intro x hx; simp at hx)
-        have hout := finishEO_out w st st' _ _ hfin
-        intro x hx; simp only at hx; rw [hout] at hx; exact hall x hx
+    · rename_i st' hfin
+      simp only [Except.ok.injEq] at h; subst h
+      have hall := parseItems_handed w (loadChild w fuel 1) 1 (loadChild_depth w fuel 1) _ _ _ _ hst
+        (by intro _; exact ⟨by simp [beginEO], rfl⟩) (by intro x hx; simp at hx)
+      have hout := finishEO_out w st st' _ _ hfin
+      have hnew : st.sheet.newEnc = (beginEO ⟨href, [], none, none, []⟩ eo en).newEnc := by
+        have := (parseItems_all w (loadChild w fuel 1) (fun _ => True)
+          (fun s' => s'.newEnc = (beginEO ⟨href, [], none, none, []⟩ eo en).newEnc)
+          (fun s rs h => h) (fun _ _ _ _ _ _ _ => trivial) _ _ _ _ hst rfl (by intro x hx; simp at hx)).1
+        exact this
+      intro x hx
+      simp only at hx; rw [hout] at hx
+      have := hall x hx
+      unfold Handed at this
+      refine ⟨this.1, ?_⟩
+      intro hd
+      rw [this.2 hd]
+      unfold parentEncodingOf
+      rw [hnew]
+      unfold beginEO
+      by_cases hen : truthy en = true
+      · have hs : ∃ e, en = some e := by
+          cases en with
+          | none => simp [truthy] at hen
+          | some e => exact ⟨e, rfl⟩
+        obtain ⟨e, rfl⟩ := hs
+        simp only [hen, if_true]
+      · simp only [hen, Bool.false_eq_true, if_false]
+        have : (if truthy eo = true then ({ href := href, ancestors := [], override := eo, newEnc := none, rules := [] } : Sheet)
+            else { href := href, ancestors := [], override := none, newEnc := none, rules := [] }).newEnc = none := by
+          split <;> rfl
+        simp only [this]
+        rfl
 
-/-- … and what is handed down to the direct imports of the root sheet is the root's own `@charset` (if it has one):
-the referring sheet's encoding -/
+/-- for `parseString`: the root's own `@charset` -/
 theorem root_hands_down_its_charset (w : World) (fuel : Nat) (input : Content) (enc : Option Name)
     (href : Option Url) (p : Parsed) (h : parseString w fuel input enc href = .ok p) :
     ∀ x ∈ p.out.recs, 1 ≤ x.depth ∧ (x.depth = 1 → x.parentArg = p.ownCharset) := by
   unfold parseString at h
   split at h
   · cases h
-  · rename_i t _
-    split at h
-    · cases h
-    · rename_i st hst
-      split at h
-      · cases h
-      · rename_i st' hfin
-        simp only [Except.ok.injEq] at h; subst h
-        have hall := parseItems_handed w (loadChild w fuel 1) 1 (loadChild_depth w fuel 1) _ _ _ _ hst
-          (by intro _; exact ⟨by simp [beginEO], rfl⟩) (by intro x hx; simp at hx)
-        have hout := finishEO_out w st st' _ _ hfin
-        have hnew : st.sheet.newEnc = none := by
-          have := (parseItems_all w (loadChild w fuel 1) (fun _ => True) (fun s => s.newEnc = none)
-            (fun s rs h => h) (fun _ _ _ _ _ _ _ => trivial) _ _ _ _ hst
-            (by simp [beginEO, truthy]; split <;> rfl) (by intro x hx; simp at hx)).1
-          exact this
-        intro x hx
-        simp only at hx; rw [hout] at hx
-        have := hall x hx
-        unfold Handed at this
-        have hp : parentEncodingOf st.sheet = ownCharsetOf st.sheet.rules := by
-          unfold parentEncodingOf ownCharsetOf
-          rw [hnew]
-        rw [hp] at this
-        exact this
+  · have := root_hands_down_text w fuel _ enc none href p h
+    simpa [truthy] using this
 
 /-- the same one level down, at any depth: the direct imports of an imported sheet get the encoding that sheet was
 read in when it came from HTTP / BOM-@charset / its own parent (`enctype` 1–4), and the sheet's own `@charset` when
@@ -252,7 +295,6 @@ theorem imported_sheet_hands_down (w : World) (fuel d : Nat) (s : Sheet) (u : Ur
     · split at h
       · simp only [Except.ok.injEq] at h; subst h; simp [failedRec]
       · split at h
-        · cases h
         · simp only [Except.ok.injEq] at h; subst h; simp [failedRec]
         · rename_i rd hrd
           split at h
@@ -308,46 +350,76 @@ theorem imported_sheet_hands_down (w : World) (fuel d : Nat) (s : Sheet) (u : Ur
 /-- the reported encoding of every imported sheet is the encoding it was read in (lower-cased, for a name
 `CSSCharsetRule` accepts) when that came from an override, HTTP, BOM/@charset or the referring sheet; a sheet read as
 UTF-8 by default reports its own `@charset` rule if the parser kept one, else utf-8 -/
-theorem reported_is_used (w : World) (fuel : Nat) (input : Content) (enc : Option Name) (href : Option Url)
-    (p : Parsed) (h : parseString w fuel input enc href = .ok p) :
+theorem reported_is_used (w : World) (fuel : Nat) (t : Text) (eo en : Option Name) (href : Option Url)
+    (p : Parsed) (h : parseText w fuel t eo en href = .ok p) :
     ∀ x ∈ p.out.recs, x.found = true →
       (x.enctype < 5 → x.used ≠ [] → validName w x.used = true → x.reported = lower x.used) ∧
       (x.enctype = 5 → x.reported = x.ownCharset.getD utf8N) := by
-  unfold parseString at h
+  unfold parseText at h
   split at h
   · cases h
-  · split at h
+  · rename_i st hst
+    split at h
     · cases h
-    · rename_i st hst
-      split at h
-      · cases h
-      · rename_i st' hfin
-        simp only [Except.ok.injEq] at h; subst h
-        obtain ⟨_, hall⟩ := parseItems_all w (loadChild w fuel 1) (RepRec w) (fun _ => True)
-          (fun _ _ _ => trivial) (fun s u r _ hr => loadChild_reported w fuel 1 s u r hr) _ _ _ _ hst trivial
-          (by intro x hx; simp at hx)
-        have hout := finishEO_out w st st' _ _ hfin
-        intro x hx; simp only at hx; rw [hout] at hx; exact hall x hx
+    · rename_i st' hfin
+      simp only [Except.ok.injEq] at h; subst h
+      obtain ⟨_, hall⟩ := parseItems_all w (loadChild w fuel 1) (RepRec w) (fun _ => True)
+        (fun _ _ _ => trivial) (fun s u r _ hr => loadChild_reported w fuel 1 s u r hr) _ _ _ _ hst trivial
+        (by intro x hx; simp at hx)
+      have hout := finishEO_out w st st' _ _ hfin
+      intro x hx; simp only at hx; rw [hout] at hx; exact hall x hx
 
 /-- the fuel of the model is only a bound on the depth of the import tree: a result obtained with some fuel is the
 result for every larger fuel (so no theorem above depends on the fuel chosen) -/
-theorem fuel_irrelevant (w : World) (fuel k : Nat) (input : Content) (enc : Option Name) (href : Option Url)
-    (p : Parsed) (h : parseString w fuel input enc href = .ok p) :
-    parseString w (fuel + k) input enc href = .ok p := by
-  unfold parseString at h ⊢
-  cases hd : decodeRoot w input enc with
-  | error e => rw [hd] at h; cases h
-  | ok t =>
-    rw [hd] at h
-    simp only at h ⊢
-    cases hp : parseItems w (loadChild w fuel 1) (w.view t) 0
-        ⟨beginEO ⟨href, [], none, none, []⟩ enc none, ⟨[], []⟩⟩ with
-    | error e => rw [hp] at h; cases h
-    | ok st =>
-      rw [hp] at h
-      rw [parseItems_mono w (loadChild w fuel 1) (loadChild w (fuel + k) 1)
-        (fun s u r hr => loadChild_fuel_mono w k fuel 1 s u r hr) _ _ _ _ hp]
-      exact h
+theorem fuel_irrelevant (w : World) (fuel k : Nat) (t : Text) (eo en : Option Name) (href : Option Url)
+    (p : Parsed) (h : parseText w fuel t eo en href = .ok p) :
+    parseText w (fuel + k) t eo en href = .ok p := by
+  unfold parseText at h ⊢
+  cases hp : parseItems w (loadChild w fuel 1) (w.view t) 0
+      ⟨beginEO ⟨href, [], none, none, []⟩ eo en, ⟨[], []⟩⟩ with
+  | error e => rw [hp] at h; cases h
+  | ok st =>
+    rw [hp] at h
+    rw [parseItems_mono w (loadChild w fuel 1) (loadChild w (fuel + k) 1)
+      (fun s u r hr => loadChild_fuel_mono w k fuel 1 s u r hr) _ _ _ _ hp]
+    exact h
+
+/-- loading never raises: whatever the fetcher serves (wrong shapes, undecodable bytes, encoding names the runtime
+does not know, names `CSSCharsetRule` rejects, recursive imports), parsing a text, and `parseUrl`, end normally; the
+only other outcome of the MODEL is its own fuel bound. (`parseString` of BYTES may raise `UnicodeDecodeError` /
+`LookupError` for the root sheet itself, as documented.) -/
+theorem loading_never_raises (w : World) (fuel : Nat) (t : Text) (eo en : Option Name) (href : Option Url) (e : Err)
+    (h : parseText w fuel t eo en href = .error e) : e = .outOfFuel := by
+  unfold parseText at h
+  split at h
+  · rename_i e1 h1
+    simp only [Except.error.injEq] at h; subst h
+    exact parseItems_err w _ (fun s u e he => loadChild_err w fuel 1 s u e he) _ _ _ _ h1
+  · rename_i st _
+    obtain ⟨st', hf⟩ := finishEO_ok w st eo en
+    rw [hf] at h
+    cases h
+
+theorem parseUrl_never_raises (w : World) (fuel : Nat) (href : Url) (enc : Option Name) (e : Err)
+    (h : parseUrl w fuel href enc = .error e) : e = .outOfFuel := by
+  unfold parseUrl at h
+  cases hr : readUrl w (w.fetch href) enc none with
+  | none => rw [hr] at h; cases h
+  | some rd =>
+    rw [hr] at h
+    simp only at h
+    cases ht : rd.text with
+    | none => rw [ht] at h; cases h
+    | some t =>
+      rw [ht] at h
+      simp only at h
+      cases hp : parseText w fuel t (if rd.enctype = 0 then some rd.encoding else none)
+          (if 0 < rd.enctype ∧ rd.enctype < 5 then some rd.encoding else none) (some href) with
+      | error x =>
+        rw [hp] at h
+        simp only [Except.error.injEq] at h; subst h
+        exact loading_never_raises w fuel _ _ _ _ _ hp
+      | ok q => rw [hp] at h; cases h
 
 /-- a sheet is never fetched while it is being loaded further up: the recursion guard of `_setHref` (fix bfd81fb) -/
 theorem recursive_import_not_followed (w : World) (fuel d : Nat) (s : Sheet) (u : Url)
@@ -355,47 +427,12 @@ theorem recursive_import_not_followed (w : World) (fuel d : Nat) (s : Sheet) (u 
     loadChild w (fuel + 1) d s u = .ok ⟨false, ⟨[], [failedRec d u (parentEncodingOf s)]⟩⟩ := by
   simp only [loadChild, if_neg hu, if_pos hanc]
 
-/-! `parseUrl` turns whatever the ladder found for the ROOT sheet (HTTP, BOM/@charset) into an override for the
-whole tree (`parse.py:214-219`: only `enctype == 5` is dropped) — known finding C08-parseurl-override:
+/-! `parseUrl`. Since the repair of C08-parseurl-override only an encoding GIVEN BY THE CALLER is an override; what
+the ladder finds for the root sheet itself (HTTP, BOM, @charset) is the root's own encoding, which imports inherit
+exactly as they inherit the encoding of an imported sheet. `parseUrl_ladder` is the former `parseUrl_partial` without
+its guard `enctype = 5`; `parseUrl_forces_root_encoding` (the old behaviour) is gone. -/
 
-  FULL STATEMENT (fails): without an override given by the caller, the imports of a sheet loaded through `parseUrl`
-  are read by the ladder from their own HTTP charset / content / the referring sheet, as in `no_override_ladder`.
-
-  proved: `parseUrl_partial` (the statement holds when the ladder for the root ends at UTF-8 by default), and the
-  exact behaviour otherwise (`parseUrl_forces_root_encoding`: every import is read in the ROOT's encoding). -/
-theorem parseUrl_forces_root_encoding (w : World) (fuel : Nat) (href : Url) (p : Parsed) (rd : ReadOk) (t : Text)
-    (hr : readUrl w (w.fetch href) none none = .ok (some rd)) (ht : rd.text = some t) (h5 : rd.enctype ≠ 5)
-    (hne : rd.encoding ≠ [])
-    (h : parseUrl w fuel href none = .ok (some p)) :
-    ∀ x ∈ p.out.recs, x.found = true → x.enctype = 0 ∧ x.used = rd.encoding := by
-  unfold parseUrl at h
-  rw [hr] at h
-  simp only [ht, h5, if_false] at h
-  cases hp : parseString w fuel (.text t) (some rd.encoding) (some href) with
-  | error e => rw [hp] at h; cases h
-  | ok q =>
-    rw [hp] at h
-    simp only [Except.ok.injEq, Option.some.injEq] at h; subst h
-    intro x hx hf
-    have := (override_propagates w fuel (.text t) rd.encoding (some href) q hne hp).1 x hx hf
-    exact ⟨this.1, this.2.1⟩
-
-theorem parseUrl_partial (w : World) (fuel : Nat) (href : Url) (p : Parsed) (rd : ReadOk) (t : Text)
-    (hr : readUrl w (w.fetch href) none none = .ok (some rd)) (ht : rd.text = some t) (h5 : rd.enctype = 5)
-    (h : parseUrl w fuel href none = .ok (some p)) :
-    ∀ x ∈ p.out.recs, x.found = true → ∃ http c, w.fetch x.url = .pair http c ∧
-      choose none http x.parentArg c = ⟨x.used, x.enctype⟩ ∧ decodeContent w c x.used = .ok (some x.text) := by
-  unfold parseUrl at h
-  rw [hr] at h
-  simp only [ht, h5, if_true] at h
-  cases hp : parseString w fuel (.text t) none (some href) with
-  | error e => rw [hp] at h; cases h
-  | ok q =>
-    rw [hp] at h
-    simp only [Except.ok.injEq, Option.some.injEq] at h; subst h
-    exact no_override_ladder w fuel (.text t) none (some href) q rfl hp
-
-/-- an override given to `parseUrl` governs the whole tree as well -/
+/-- an override given to `parseUrl` governs the whole tree -/
 theorem parseUrl_override_propagates (w : World) (fuel : Nat) (href : Url) (e : Name) (p : Parsed) (he : e ≠ [])
     (h : parseUrl w fuel href (some e) = .ok (some p)) :
     (∀ x ∈ p.out.recs, x.found = true → x.enctype = 0 ∧ x.used = e ∧ (validName w e = true → x.reported = lower e)) ∧
@@ -403,27 +440,99 @@ theorem parseUrl_override_propagates (w : World) (fuel : Nat) (href : Url) (e : 
   have hte : truthy (some e) = true := (truthy_some_iff e).mpr he
   unfold parseUrl at h
   cases hr : readUrl w (w.fetch href) (some e) none with
-  | error x => rw [hr] at h; cases h
-  | ok o =>
+  | none => rw [hr] at h; simp at h
+  | some rd =>
     rw [hr] at h
-    cases o with
-    | none => simp at h
-    | some rd =>
-      obtain ⟨henc, hty⟩ := readUrl_override w _ _ _ rd hte hr
-      simp only [Option.getD_some] at henc
-      simp only at h
-      cases ht : rd.text with
-      | none => rw [ht] at h; simp at h
-      | some t =>
-        rw [ht] at h
-        simp only [hty, henc, show ((0 : Nat) = 5) = False from by simp, if_false] at h
-        cases hp : parseString w fuel (.text t) (some e) (some href) with
-        | error x => rw [hp] at h; simp at h
-        | ok q =>
-          rw [hp] at h
-          simp only [Except.ok.injEq, Option.some.injEq] at h
-          subst h
-          exact override_propagates w fuel (.text t) e (some href) q he hp
+    obtain ⟨henc, hty⟩ := readUrl_override w _ _ _ rd hte hr
+    simp only [Option.getD_some] at henc
+    simp only at h
+    cases ht : rd.text with
+    | none => rw [ht] at h; simp at h
+    | some t =>
+      rw [ht] at h
+      simp only [hty, henc, if_true] at h
+      cases hp : parseText w fuel t (some e) (if 0 < 0 ∧ 0 < 5 then some e else none) (some href) with
+      | error x => rw [hp] at h; simp at h
+      | ok q =>
+        rw [hp] at h
+        simp only [Except.ok.injEq, Option.some.injEq] at h
+        subst h
+        exact override_propagates_text w fuel t e _ (some href) q he hp
+
+/-- `parseUrl` WITHOUT an override: every import, at any depth, is read by the ladder from its own HTTP charset, its
+own content and the `parentEncoding` handed down — whatever the ladder found for the root sheet -/
+theorem parseUrl_ladder (w : World) (fuel : Nat) (href : Url) (enc : Option Name) (p : Parsed)
+    (hne : truthy enc = false) (h : parseUrl w fuel href enc = .ok (some p)) :
+    ∀ x ∈ p.out.recs, x.found = true → ∃ http c, w.fetch x.url = .pair http c ∧
+      choose none http x.parentArg c = ⟨x.used, x.enctype⟩ ∧ decodeContent w c x.used = some x.text := by
+  unfold parseUrl at h
+  cases hr : readUrl w (w.fetch href) enc none with
+  | none => rw [hr] at h; simp at h
+  | some rd =>
+    rw [hr] at h
+    simp only at h
+    obtain ⟨http, c, _, hch, _⟩ := readUrl_some w _ _ _ rd hr
+    have hty : rd.enctype ≠ 0 := by
+      have := congrArg Choice.enctype hch
+      simp only at this
+      rw [this]
+      exact choose_enctype_ne0 enc http none c hne
+    cases ht : rd.text with
+    | none => rw [ht] at h; simp at h
+    | some t =>
+      rw [ht] at h
+      simp only [hty, if_false] at h
+      cases hp : parseText w fuel t none (if 0 < rd.enctype ∧ rd.enctype < 5 then some rd.encoding else none)
+          (some href) with
+      | error x => rw [hp] at h; simp at h
+      | ok q =>
+        rw [hp] at h
+        simp only [Except.ok.injEq, Option.some.injEq] at h
+        subst h
+        exact no_override_ladder_text w fuel t none _ (some href) q rfl hp
+
+/-- … and the direct imports of the root inherit the encoding the ladder found for the root (HTTP, BOM/@charset),
+or the root's own `@charset` rule when the root was read as UTF-8 by default — the same rule as for an imported sheet -/
+theorem parseUrl_root_hands_down (w : World) (fuel : Nat) (href : Url) (enc : Option Name) (p : Parsed) (rd : ReadOk)
+    (hr : readUrl w (w.fetch href) enc none = some rd) (hne : truthy enc = false)
+    (h : parseUrl w fuel href enc = .ok (some p)) :
+    ∀ x ∈ p.out.recs, 1 ≤ x.depth ∧ (x.depth = 1 →
+      x.parentArg = if rd.enctype < 5 ∧ rd.encoding ≠ [] then some rd.encoding else p.ownCharset) := by
+  unfold parseUrl at h
+  rw [hr] at h
+  simp only at h
+  obtain ⟨http, c, _, hch, _⟩ := readUrl_some w _ _ _ rd hr
+  have hty : rd.enctype ≠ 0 := by
+    have := congrArg Choice.enctype hch
+    simp only at this
+    rw [this]
+    exact choose_enctype_ne0 enc http none c hne
+  cases ht : rd.text with
+  | none => rw [ht] at h; simp at h
+  | some t =>
+    rw [ht] at h
+    simp only [hty, if_false] at h
+    cases hp : parseText w fuel t none (if 0 < rd.enctype ∧ rd.enctype < 5 then some rd.encoding else none)
+        (some href) with
+    | error x => rw [hp] at h; simp at h
+    | ok q =>
+      rw [hp] at h
+      simp only [Except.ok.injEq, Option.some.injEq] at h
+      subst h
+      have := root_hands_down_text w fuel t none _ (some href) q hp
+      intro x hx
+      obtain ⟨h1, h2⟩ := this x hx
+      refine ⟨h1, ?_⟩
+      intro hd
+      rw [h2 hd]
+      by_cases hlt : rd.enctype < 5
+      · have h05 : 0 < rd.enctype ∧ rd.enctype < 5 := ⟨by omega, hlt⟩
+        by_cases hu : rd.encoding = []
+        · simp [h05, hu, truthy]
+        · have : truthy (some rd.encoding) = true := (truthy_some_iff _).mpr hu
+          simp [h05, hu, this]
+      · have h05 : ¬ (0 < rd.enctype ∧ rd.enctype < 5) := fun hx => hlt hx.2
+        simp [hlt, truthy]
 
 /-! ## T8.3 `sheet.encoding` mirrors the `@charset` rule under edits -/
 open CssVerif.EncSheet in
@@ -617,5 +726,19 @@ example : summary (parseString demoWorld 5 (.text [0]) none none)
     = some ([0x78], [(1, 1, [0x68], some [0x78], [0x68]), (2, 4, [0x68], some [0x68], [0x68])]) := by rfl
 example : summary (parseString demoWorld 5 (.text [0]) (some [0x6F]) none)
     = some ([0x6F], [(1, 0, [0x6F], some [0x78], [0x6F]), (2, 0, [0x6F], none, [0x6F])]) := by rfl
+
+/-- `parseUrl` on a root served with HTTP charset `r` that imports `u1` (no information of its own), which imports
+`u2` served as `h`: the root's encoding is inherited by `u1`, NOT forced on `u2` -/
+def demoWorldUrl : World where
+  fetch := fun u => if u = [9] then .pair (some [0x72]) (.text [0]) else if u = [1] then .pair none (.text [10])
+    else if u = [2] then .pair (some [0x68]) (.text [20]) else .none
+  dec := fun _ _ => .lookupError
+  known := fun _ => true
+  view := fun t => if t = [0] then [.imp [1]] else if t = [10] then [.imp [2]] else []
+
+example : (match parseUrl demoWorldUrl 5 [9] none with
+    | .ok (some p) => some (p.encoding, p.out.recs.map (fun r => (r.depth, r.enctype, r.used, r.parentArg, r.reported)))
+    | _ => none)
+    = some ([0x72], [(1, 4, [0x72], some [0x72], [0x72]), (2, 1, [0x68], some [0x72], [0x68])]) := by rfl
 
 end CssVerif.C08
